@@ -46,10 +46,21 @@ pub fn rec(mut v: Value) {
     if let Value::Object(m) = &mut v {
         m.insert("seq".into(), json!(SEQ.fetch_add(1, Ordering::SeqCst)));
         m.insert("th".into(), json!(tid()));
+        m.insert("t".into(), json!(mono_ns() / 1000));
     }
     let _ = serde_json::to_writer(&mut *g, &v);
     let _ = g.write_all(b"\n");
+    if AUTOFLUSH.load(Ordering::Relaxed) {
+        let _ = g.flush();
+    }
     PROGRESS.fetch_add(1, Ordering::SeqCst);
+}
+
+static AUTOFLUSH: AtomicBool = AtomicBool::new(false);
+
+/// flush after every record (used by isolated children, which may be killed at any time)
+pub fn set_autoflush(on: bool) {
+    AUTOFLUSH.store(on, Ordering::SeqCst);
 }
 
 pub fn flush() {
@@ -194,6 +205,138 @@ pub fn panic_msg(e: &Box<dyn std::any::Any + Send>) -> String {
         s.clone()
     } else {
         "non-string panic".to_string()
+    }
+}
+
+/// Run every scenario in its own child process (process-global runtime state never leaks from
+/// one scenario into the next), `parallel` children at a time; a child that hangs, aborts or is
+/// killed by a signal is recorded as a `died` event. Output order is scenario order.
+/// Child invocation: `<exe> <scenarios> <tmp_out> --only <index>`.
+pub fn isolated_main(reset_ev: &str, end_ev: &str, default_timeout_ms: u64, parallel: usize, run_one: fn(&Value)) {
+    let argv: Vec<String> = std::env::args().collect();
+    if let Some(p) = argv.iter().position(|x| x == "--only") {
+        let k: usize = argv[p + 1].parse().expect("--only K");
+        open_out(&argv[2], false);
+        set_autoflush(true);
+        std::panic::set_hook(Box::new(|_| {}));
+        let scs = read_scenarios(&argv[1]);
+        let sc = &scs[k];
+        let r = std::panic::catch_unwind(std::panic::AssertUnwindSafe(|| run_one(sc)));
+        if let Err(e) = r {
+            rec(json!({"ev": "died", "how": "panic", "msg": panic_msg(&e), "scenario": sc["id"], "step": 0}));
+        }
+        flush();
+        unsafe { libc::_exit(0) };
+    }
+    let a = args();
+    let scs = read_scenarios(&a.scenarios);
+    let exe = std::env::current_exe().expect("current exe");
+    let n = scs.len();
+    let next = std::sync::Arc::new(std::sync::atomic::AtomicUsize::new(a.from as usize));
+    let results: std::sync::Arc<Mutex<Vec<Option<String>>>> = std::sync::Arc::new(Mutex::new(vec![None; n]));
+    let mut hs = vec![];
+    for _ in 0..parallel.max(1) {
+        let next = next.clone();
+        let results = results.clone();
+        let scs = scs.clone();
+        let exe = exe.clone();
+        let scen_path = a.scenarios.clone();
+        let out_base = a.out.clone();
+        let reset_ev = reset_ev.to_string();
+        let end_ev = end_ev.to_string();
+        hs.push(std::thread::spawn(move || loop {
+            let i = next.fetch_add(1, Ordering::SeqCst);
+            if i >= scs.len() {
+                break;
+            }
+            let sc = &scs[i];
+            let tmp = format!("{out_base}.child{i}");
+            let _ = std::fs::remove_file(&tmp);
+            let limit = Duration::from_millis(sc.get("timeout_ms").and_then(Value::as_u64).unwrap_or(default_timeout_ms));
+            let mut child = std::process::Command::new(&exe)
+                .arg(&scen_path)
+                .arg(&tmp)
+                .arg("--only")
+                .arg(i.to_string())
+                .stdout(std::process::Stdio::null())
+                .stderr(std::process::Stdio::piped())
+                .spawn()
+                .expect("spawn child");
+            let t0 = Instant::now();
+            let mut how: Option<String> = None;
+            let status = loop {
+                match child.try_wait() {
+                    Ok(Some(st)) => break Some(st),
+                    Ok(None) => {
+                        if t0.elapsed() > limit {
+                            let _ = child.kill();
+                            let _ = child.wait();
+                            how = Some("hang".into());
+                            break None;
+                        }
+                        std::thread::sleep(Duration::from_millis(2));
+                    }
+                    Err(_) => break None,
+                }
+            };
+            let mut err = String::new();
+            if let Some(mut e) = child.stderr.take() {
+                use std::io::Read;
+                let mut buf = vec![];
+                let _ = e.read_to_end(&mut buf);
+                err = String::from_utf8_lossy(&buf).chars().rev().take(300).collect::<String>().chars().rev().collect();
+            }
+            if let Some(st) = status {
+                if !st.success() {
+                    how = Some("abort".into());
+                    err = format!("{st:?} {err}");
+                }
+            }
+            let mut text = std::fs::read_to_string(&tmp).unwrap_or_default();
+            let _ = std::fs::remove_file(&tmp);
+            if !text.contains(&format!("\"ev\":\"{reset_ev}\"")) {
+                // the child died before writing anything: synthesise the reset record from the
+                // scenario's own scalar fields (the drivers' reset records carry exactly those)
+                let mut m = Map::new();
+                if let Value::Object(o) = sc {
+                    for (k, v) in o {
+                        if v.is_number() || v.is_boolean() || v.is_string() {
+                            m.insert(k.clone(), v.clone());
+                        }
+                    }
+                }
+                m.insert("ev".into(), json!(reset_ev));
+                m.insert("scenario".into(), sc["id"].clone());
+                m.insert("synthetic".into(), json!(true));
+                m.insert("seq".into(), json!(0));
+                m.insert("th".into(), json!(999));
+                m.insert("t".into(), json!(0));
+                text = format!("{}\n{}", Value::Object(m), text);
+            }
+            if let Some(h) = how {
+                if !text.ends_with('\n') && !text.is_empty() {
+                    // a partially written last line is dropped
+                    if let Some(p) = text.rfind('\n') {
+                        text.truncate(p + 1);
+                    } else {
+                        text.clear();
+                    }
+                }
+                text.push_str(&format!("{}\n", json!({"ev": "died", "how": h, "msg": err, "scenario": sc["id"], "step": 0, "seq": 0, "th": 999})));
+            }
+            let has_end = text.lines().last().is_some_and(|l| l.contains(&format!("\"ev\":\"{end_ev}\"")));
+            if !has_end {
+                text.push_str(&format!("{}\n", json!({"ev": end_ev, "scenario": sc["id"], "synthetic": true, "seq": 0, "th": 999})));
+            }
+            results.lock().unwrap()[i] = Some(text);
+        }));
+    }
+    for h in hs {
+        let _ = h.join();
+    }
+    let mut f = OpenOptions::new().create(true).write(true).append(a.append).truncate(!a.append).open(&a.out).expect("open out");
+    for t in results.lock().unwrap().iter().flatten() {
+        let _ = f.write_all(t.as_bytes());
     }
 }
 
